@@ -43,6 +43,21 @@ fn fill(s: &mut Snap, t: St, d: usize, hot: usize) {
     }
 }
 
+/// put the type's "empty" value at position p of stack t
+fn degenerate(s: &mut Snap, t: St, p: usize) {
+    match t {
+        St::Int if p < s.i.len() => s.i[p] = 0,
+        St::Float if p < s.f.len() => s.f[p] = fb(0.0),
+        St::Name if p < s.n.len() => s.n[p] = String::new(),
+        St::Code if p < s.c.len() => s.c[p] = SItem::List(vec![]),
+        St::Exec if p < s.e.len() => s.e[p] = SItem::List(vec![]),
+        St::BV if p < s.bv.len() => s.bv[p] = vec![],
+        St::IV if p < s.iv.len() => s.iv[p] = vec![],
+        St::FV if p < s.fv.len() => s.fv[p] = vec![],
+        _ => {}
+    }
+}
+
 fn multiset(s: &Snap, t: St) -> Vec<String> {
     let mut v: Vec<String> = match t {
         St::Bool => s.b.iter().map(|x| x.to_string()).collect(),
@@ -105,6 +120,10 @@ pub fn run(ctx: &mut Ctx) {
                             // the target stack and the integer stack are exactly controlled
                             s.i.clear();
                             fill(&mut s, *t, d, *hot);
+                            if var == variants - 1 && d > 0 {
+                                // last variant: the addressed position holds the type's "empty" value
+                                degenerate(&mut s, *t, crate::frame::clamp(*idx, d));
+                            }
                             if takes_index(op) {
                                 s.i.insert(0, *idx);
                             } else if *t != St::Int && var > 0 {
@@ -216,6 +235,12 @@ pub fn run(ctx: &mut Ctx) {
                     s.b[j] = !s.b[j];
                 }
             }
+        }
+        // one position holds the type's "empty" value (empty vector / list / name, 0, 0.0): an item
+        // like any other
+        if r.chance(1, 3) {
+            let p = if r.bool() { crate::frame::clamp(idx, d) } else { r.below(d) };
+            degenerate(&mut s, t, p);
         }
         if takes_index(op) {
             s.i.insert(0, idx);
